@@ -57,7 +57,7 @@ def tsan_runs(res, tier, known, modes=(0, 1, 2)):
         return
     env = dict(os.environ)
     env["TSAN_OPTIONS"] = "halt_on_error=0 exitcode=0"
-    nseeds = 4 if tier == "quick" else 24
+    nseeds = 4 if tier == "quick" else 12
     iters = 2500 if tier == "quick" else 20000
     reports, runs = [], 0
     # guard on + stripe limit 4: doublings defer migration (mode 3), and mode 0 grows through lazily migrated tables
@@ -68,9 +68,16 @@ def tsan_runs(res, tier, known, modes=(0, 1, 2)):
     plan = [(exe, m) for m in modes]
     if ok2 and 0 in modes:
         plan += [(exe2, 3), (exe2, 0)]
-    for ex_, mode in plan:
-        for sd in range(nseeds):
-            rc, out, dt = C.sh([ex_, str(C.seed() * 100 + sd), str(iters), str(mode)], timeout=300, env=env)
+    import concurrent.futures as cf
+    jobs = [(ex_, mode, sd) for ex_, mode in plan for sd in range(nseeds)]
+
+    def one(j):
+        ex_, mode, sd = j
+        rc, out, dt = C.sh([ex_, str(C.seed() * 100 + sd), str(iters), str(mode)], timeout=600, env=env)
+        return mode, sd, out
+
+    with cf.ThreadPoolExecutor(max_workers=4) as pool:
+        for mode, sd, out in pool.map(one, jobs):
             runs += 1
             if "done bad=0" not in out:
                 res.add_failing({"what": "K4 free-running run failed (crash, hang or a reader saw a torn/wrong value)", "mode": mode,
